@@ -15,10 +15,14 @@ COMMON_ASSUME = [
 
 def mp_jobs(prefix=""):
     step = {"name": "step", "pkg": "motion", "harness": "motion", "entry": "ZZ_MP_step",
-            "grid": {"N": [1, 2, 3, 4], "STEPS": [2]}, "grid_thorough": {"N": [1, 2, 3, 4, 5, 6, 7, 8], "STEPS": [2]},
+            "grid": {"N": [1, 2, 3, 4], "STEPS": [2], "CR": [0]}, "grid_thorough": {"N": [1, 2, 3, 4, 5, 6, 7, 8], "STEPS": [2], "CR": [0]}, "timeout": 300,
             "stubs": DETECT_STUB, "noops": LOG_NOOP, "native_rewrite": DETECT_REWRITE}
     cfgs = [  # fps, minS, maxS, prevS, T
         (1, 0, 0, 0, 1), (2, 1, 2, 1, 1), (1, 2, 3, 1, 2), (1, 1, 1, 1, 2), (3, 1, 1, 0, 2), (2, 0, 1, 1, 0), (1, 2, 3, 1, 0)]
+    step_cr = dict(step); step_cr["name"] = "step_cr"
+    step_cr["grid"] = {"N": [1, 2], "STEPS": [2], "CR": [1]}
+    step_cr["grid_thorough"] = {"N": [1, 2, 3, 4, 5, 6], "STEPS": [2], "CR": [1]}
+    step_cr["timeout"] = 600
     jobs = [step]
     for i, (fps, mn, mx, pv, T) in enumerate(cfgs):
         jobs.append({"name": f"bmc{i}", "pkg": "motion", "harness": "motion", "entry": "ZZ_MP_bmc",
@@ -26,6 +30,7 @@ def mp_jobs(prefix=""):
                      "grid_thorough": {"fps": [fps], "minS": [mn], "maxS": [mx], "prevS": [pv], "T": [T], "K": [12]},
                      "stubs": DETECT_STUB, "noops": LOG_NOOP, "native_rewrite": DETECT_REWRITE,
                      "tier": "" if i < 3 else "thorough"})
+    jobs.append(step_cr)
     return jobs
 
 MP_EXPL = ("Bounded symbolic verification of motion/motionprocessor.go + motion/frameloop.go (SSA->SMT). "
@@ -210,7 +215,7 @@ sites["native_rewrite"] = ["motion.go:motionDetector.updateBackground=zzStubUpda
 c15.append(sites)
 c15.append([j for j in thr_jobs() if j["name"] == "step_a"][0])
 _a = dict([j for j in aux_jobs(1) if j["name"] == "step_faults"][0]); _a["grid"] = {"N": [1, 2], "CR": [0], "FAULTS": [1]}
-_m = dict(mp_jobs()[0]); _m["grid"] = {"N": [1, 2], "STEPS": [2]}
+_m = dict(mp_jobs()[0]); _m["grid"] = {"N": [1, 2], "STEPS": [2], "CR": [0]}
 c15.append(_a)
 c15.append(_m)
 specs["C15"] = {"property": "C15",
